@@ -2,8 +2,10 @@ package main
 
 import (
 	"fmt"
+	"go/constant"
 	"go/token"
 	"go/types"
+	"os"
 	"sort"
 	"strings"
 
@@ -29,6 +31,14 @@ func runStatic(prog *Prog, sc StaticCheck) *StaticResult {
 	switch sc.Kind {
 	case "codec-table":
 		return runCodecTable(prog, sc)
+	case "guarded-by":
+		return runGuardedBy(prog, sc)
+	case "spawn":
+		return runSpawn(prog, sc)
+	case "once-init":
+		return runOnceInit(prog, sc)
+	case "call-flags":
+		return runCallFlags(prog, sc)
 	case "field-types":
 		return runFieldTypes(prog, sc)
 	case "global-frame":
@@ -83,10 +93,26 @@ func runGlobalFrame(prog *Prog, sc StaticCheck) *StaticResult {
 		fns = append(fns, fn)
 	}
 	sort.Slice(fns, func(i, j int) bool { return fns[i].String() < fns[j].String() })
+	exempt := map[string]bool{}
+	for _, e := range strings.Split(sc.Args["exempt"], ",") {
+		if e = strings.TrimSpace(e); e != "" {
+			exempt[e] = true
+		}
+	}
+	usedExempt := map[string]bool{}
 	for _, fn := range fns {
 		nfn++
 		res.Obligations++
 		bad := ""
+		short := fn.Name()
+		if fn.Parent() == nil {
+			short = contractName(fn)
+		}
+		if exempt[short] {
+			usedExempt[short] = true
+			res.Discharged++
+			continue
+		}
 		for _, b := range fn.Blocks {
 			for _, in := range b.Instrs {
 				var what string
@@ -119,6 +145,20 @@ func runGlobalFrame(prog *Prog, sc StaticCheck) *StaticResult {
 			continue
 		}
 		res.Discharged++
+	}
+	for e := range exempt {
+		if !usedExempt[e] {
+			res.Obligations++
+			res.Failures = append(res.Failures, "exempt function "+e+" not found (stale)")
+		}
+	}
+	if len(usedExempt) > 0 {
+		var ex []string
+		for e := range usedExempt {
+			ex = append(ex, e)
+		}
+		sort.Strings(ex)
+		res.Trusted = append(res.Trusted, fmt.Sprintf("global-frame %s: %v may write the locations: %s", sc.Name, ex, sc.Args["exempt_reason"]))
 	}
 	res.Samples = append(res.Samples, map[string]interface{}{"obligation": fmt.Sprintf("every function of the module except %s.init#frame(no store to %s)", sc.Pkg, sc.Args["forbid"]), "backend": "static store scan", "functions": nfn})
 	res.Detail = map[string]interface{}{"functions_scanned": nfn, "forbid": sc.Args["forbid"]}
@@ -162,6 +202,68 @@ func runFieldTypes(prog *Prog, sc StaticCheck) *StaticResult {
 	res.Samples = append(res.Samples, map[string]interface{}{"obligation": fmt.Sprintf("%s#field-types(%s)", sc.Args["type"], sc.Args["allowed"]), "backend": "go/types", "fields": st.NumFields()})
 	res.Trusted = append(res.Trusted, "reflect: Value.FieldByIndex(i).Addr().Interface() yields a pointer of the field's declared type")
 	res.Detail = map[string]interface{}{"type": sc.Args["type"], "fields": st.NumFields()}
+	return res
+}
+
+// runCallFlags: every call of <callee> inside <func> passes, at argument index <arg>, a constant that has all
+// the bits of <flags> (a |-separated list of os.O_* names) set — e.g. exclusive creation of temporary files.
+func runCallFlags(prog *Prog, sc StaticCheck) *StaticResult {
+	res := &StaticResult{Name: sc.Name, Kind: sc.Kind}
+	fn := prog.FindFunc(modPath+"/"+sc.Pkg, sc.Args["func"])
+	if fn == nil {
+		res.Obligations = 1
+		res.Failures = append(res.Failures, "binding: function "+sc.Args["func"]+" not found")
+		return res
+	}
+	known := map[string]int64{"O_CREATE": int64(os.O_CREATE), "O_EXCL": int64(os.O_EXCL), "O_RDWR": int64(os.O_RDWR), "O_WRONLY": int64(os.O_WRONLY), "O_TRUNC": int64(os.O_TRUNC), "O_APPEND": int64(os.O_APPEND)}
+	var mask int64
+	for _, f := range strings.Split(sc.Args["flags"], "|") {
+		v, ok := known[strings.TrimSpace(f)]
+		if !ok {
+			res.Obligations = 1
+			res.Failures = append(res.Failures, "unknown flag "+f)
+			return res
+		}
+		mask |= v
+	}
+	var argIdx int
+	fmt.Sscanf(sc.Args["arg"], "%d", &argIdx)
+	sites := 0
+	fns := append([]*ssa.Function{fn}, fn.AnonFuncs...)
+	for _, f := range fns {
+		for _, b := range f.Blocks {
+			for _, in := range b.Instrs {
+				ci, ok := in.(ssa.CallInstruction)
+				if !ok || ci.Common().StaticCallee() == nil || ci.Common().StaticCallee().String() != sc.Args["callee"] {
+					continue
+				}
+				sites++
+				res.Obligations++
+				args := ci.Common().Args
+				if argIdx >= len(args) {
+					res.Failures = append(res.Failures, "argument index out of range")
+					continue
+				}
+				c, ok := args[argIdx].(*ssa.Const)
+				if !ok || c.Value == nil {
+					res.Failures = append(res.Failures, fmt.Sprintf("%s calls %s at %s with non-constant flags", sc.Args["func"], sc.Args["callee"], posOf(prog, in.Pos())))
+					continue
+				}
+				v, _ := constant.Int64Val(c.Value)
+				if v&mask != mask {
+					res.Failures = append(res.Failures, fmt.Sprintf("%s calls %s at %s with flags %#x lacking %s", sc.Args["func"], sc.Args["callee"], posOf(prog, in.Pos()), v, sc.Args["flags"]))
+					continue
+				}
+				res.Discharged++
+				res.Samples = append(res.Samples, map[string]interface{}{"obligation": fmt.Sprintf("%s#call-flags(%s has %s) at %s", sc.Args["func"], sc.Args["callee"], sc.Args["flags"], posOf(prog, in.Pos())), "backend": "constant evaluation"})
+			}
+		}
+	}
+	if sites == 0 {
+		res.Obligations++
+		res.Failures = append(res.Failures, fmt.Sprintf("%s does not call %s (stale)", sc.Args["func"], sc.Args["callee"]))
+	}
+	res.Trusted = append(res.Trusted, "os.OpenFile with O_CREATE|O_EXCL fails if the file exists (atomic exclusive creation by the operating system)")
 	return res
 }
 
